@@ -21,12 +21,24 @@ def base_exptr(name):
   from vizier._src.benchmarks.experimenters.synthetic import branin
   if name == 'Branin':
     return branin.Branin2DExperimenter()
+  if name == 'SphereBox':
+    ps = bbob.DefaultBBOBProblemStatement(2)
+    box = copy.deepcopy(ps)
+    from vizier import pyvizier as vz
+    box.search_space = vz.SearchSpace()
+    for p, (lo, hi) in zip(ps.search_space.parameters, [(2.0, 3.0), (-0.5, 0.5)]):
+      box.search_space.root.add_float_param(p.name, lo, hi)
+    return numpy_experimenter.NumpyExperimenter(bbob.Sphere, box)
   if name == 'MultiObjective':
     from vizier._src.benchmarks.experimenters import multiobjective_experimenter
     return multiobjective_experimenter.MultiObjectiveExperimenter({
         'f1': numpy_experimenter.NumpyExperimenter(bbob.Sphere, bbob.DefaultBBOBProblemStatement(2)),
         'f2': numpy_experimenter.NumpyExperimenter(bbob.BuecheRastrigin, bbob.DefaultBBOBProblemStatement(2))})
   return numpy_experimenter.NumpyExperimenter(getattr(bbob, name), bbob.DefaultBBOBProblemStatement(2))
+
+
+NOISE_TYPES = ['MODERATE_GAUSSIAN', 'SEVERE_GAUSSIAN', 'MODERATE_UNIFORM', 'SEVERE_UNIFORM', 'MODERATE_SELDOM_CAUCHY', 'SEVERE_SELDOM_CAUCHY',
+               'LIGHT_ADDITIVE_GAUSSIAN', 'MODERATE_ADDITIVE_GAUSSIAN', 'SEVERE_ADDITIVE_GAUSSIAN']
 
 
 def wrap(inner, w, seed):
@@ -46,7 +58,9 @@ def wrap(inner, w, seed):
   if w == 'SignFlip':
     return sign_flip_experimenter.SignFlipExperimenter(inner)
   if w == 'Noisy':
-    return noisy_experimenter.NoisyExperimenter.from_type(inner, 'MODERATE_GAUSSIAN', seed=seed)
+    return noisy_experimenter.NoisyExperimenter.from_type(inner, NOISE_TYPES[seed % len(NOISE_TYPES)], seed=seed)
+  if w == 'HyperCube':
+    return normalizing_experimenter.HyperCubeExperimenter(inner)
   if w == 'Discretize':
     disc = {}
     for p in ps.search_space.parameters:
@@ -133,10 +147,16 @@ def observe(term, rng):
           q[ip.name] = float(np.clip(p[ip.name] - shift[j], lo, hi))
       elif outer_name == 'Discretize':
         q = {k: float(v) for k, v in p.items()}
+      elif outer_name == 'HyperCube':
+        # the cube coordinate h_j stands for the point lo_j + h_j * (hi_j - lo_j) of the wrapped (linear-scale) space
+        q = {}
+        for j, ip in enumerate(inner_ps.search_space.parameters):
+          lo, hi = ip.bounds
+          q[ip.name] = float(lo + p['h%d' % j] * (hi - lo))
       mapped.append(q)
     inner_trials = evaluate(build(seed), mapped) if outer_name != 'Permute' else None
     law = {'ShiftPos': 'pointwise', 'ShiftNeg': 'pointwise', 'SignFlip': 'pointwise', 'Discretize': 'pointwise', 'HashInfeasible': 'pointwise',
-           'Normalize': 'order', 'Noisy': 'none', 'Permute': 'none', 'Base': 'none'}[outer_name]
+           'Normalize': 'order', 'Noisy': 'none', 'Permute': 'none', 'Base': 'none', 'HyperCube': 'pointwise'}[outer_name]
     if 'Noisy' in term['ws'][:-1]:
       law = 'none'      # a noisy inner experimenter draws from a stateful stream: the pointwise oracle does not apply, only the protocol
     rec['law'] = law
@@ -173,7 +193,15 @@ def observe(term, rng):
       orig = [value_of(t, iname) for t in evaluate(build(seed), pts)]
       rec['extra_ok'] = bool(g_in != g_out and twice.problem_statement().metric_information.item().goal == g_in and back == orig)
     elif outer_name == 'Noisy':
-      again = [value_of(t, mname) for t in evaluate(wrap(build(seed), 'Noisy', seed), pts)]
+      # the second run happens with every global random stream in another state, and many evaluations (rare noise events)
+      np.random.seed(rng.randrange(2 ** 31))
+      random.seed(rng.random())
+      np.random.standard_cauchy(7)
+      many = pts * 12
+      first = [value_of(t, mname) for t in evaluate(wrap(build(seed), 'Noisy', seed), many)]
+      np.random.seed(rng.randrange(2 ** 31))
+      second = [value_of(t, mname) for t in evaluate(wrap(build(seed), 'Noisy', seed), many)]
+      again = [value_of(t, mname) for t in evaluate(wrap(build(seed), 'Noisy', seed), pts)] if first == second else None
       other = [value_of(t, mname) for t in evaluate(wrap(build(seed), 'Noisy', seed + 1), pts)]
       mine = [value_of(t, mname) for t in trials]
       noiseless = [value_of(t, iname) for t in evaluate(build(seed), pts)]
